@@ -2,6 +2,12 @@
 """Print the prompt for an independent mutant-seeding agent for one property (text only)."""
 import json, sys
 pid = sys.argv[1]
+ROUND = sys.argv[2] if len(sys.argv) > 2 else 'ab'   # names of the two changes to deliver
+import os, glob
+prev = []
+for d in sorted(glob.glob(f'/verif/seeded/{pid}-*')):
+    try: prev.append(json.load(open(d + '/meta.json')).get('summary', ''))
+    except Exception: pass
 p = next(json.loads(l) for l in open('/verif/properties.jsonl') if json.loads(l)['id'] == pid)
 wt = f'/tmp/seed/{pid}'
 print(f"""You are testing how robust a Go library is against subtle regressions. You have your own scratch git worktree of the repository Query-farm/vgi-rpc-go at {wt} (Go implementation of vgi-rpc, an Arrow-IPC RPC protocol). Work ONLY inside {wt}; never touch /repo or /verif, and do not read anything under /verif. No network is available. Go commands: run `go` with env `GOFLAGS=-mod=mod GOPROXY=off` (e.g. `cd {wt} && GOFLAGS=-mod=mod GOPROXY=off go test -vet=off -count=1 ./vgirpc/`), which takes ~15-60 s; files named verif_*.go are build-tagged instrumentation, ignore them and do not edit them.
@@ -14,6 +20,6 @@ Here is a semantic property the library is supposed to satisfy:
 
 Your job: produce TWO DIFFERENT small source changes (each its own patch) to the library that each BREAK this property while (a) the package still compiles, and (b) the repository's existing test suite still passes (`go test -vet=off -count=1 ./vgirpc/...` and, if you touch a sub-module such as vgirpc/s3 or vgirpc/otel, that module's tests too). Make them realistic regressions a maintainer could plausibly introduce (an inverted or off-by-one comparison, a dropped guard or release, a reordered step, a wrong key/field, a lost error path, two cooperating sites that each look fine alone) and make them need something SPECIFIC to manifest — a particular interleaving, a fault at a particular point, a multi-step sequence of operations, an unusual input or boundary value — rather than something ordinary use would expose at once. The two changes should touch different mechanisms.
 
-For each change also write a demonstration: a Go test file (package vgirpc or an external test package, placed in the worktree, e.g. vgirpc/zz_seed_{pid.lower()}_a_test.go) or a small program that FAILS with the change applied and PASSES on the original code. Verify all of it yourself: original code → existing tests pass, demo passes; changed code → compiles, existing tests pass, demo fails.
+For each change also write a demonstration: a Go test file (package vgirpc or an external test package, placed in the worktree, e.g. vgirpc/zz_seed_{pid.lower()}_{ROUND[0]}_test.go) or a small program that FAILS with the change applied and PASSES on the original code. Verify all of it yourself: original code → existing tests pass, demo passes; changed code → compiles, existing tests pass, demo fails.
 
-Deliver, in the directory {wt}/_seed/ (create it): for change k in (a, b): `k/patch.diff` (output of `git diff` for the library source only, NOT including the demo test file and NOT including _seed), `k/demo_test.go` (the demonstration, with a header comment giving the path it must be copied to and the exact command to run it), and `k/meta.json` with keys: property (the id), summary (one sentence: what the change does), needs (what specific input/sequence/interleaving it needs to manifest), files (list of source files changed), demo_cmd, verified (what you ran and observed). When done, leave the worktree's tracked source files reverted to the original (`git checkout -- .` there; keep only the _seed directory and nothing else untracked). Do NOT use `git stash` (the stash is shared between worktrees; save diffs to files and use `git apply` instead). Final message: a two-line summary of the two changes.""")
+Deliver, in the directory {wt}/_seed/ (create it): for change k in ({ROUND[0]}, {ROUND[1]}): `k/patch.diff` (output of `git diff` for the library source only, NOT including the demo test file and NOT including _seed), `k/demo_test.go` (the demonstration, with a header comment giving the path it must be copied to and the exact command to run it), and `k/meta.json` with keys: property (the id), summary (one sentence: what the change does), needs (what specific input/sequence/interleaving it needs to manifest), files (list of source files changed), demo_cmd, verified (what you ran and observed). When done, leave the worktree's tracked source files reverted to the original (`git checkout -- .` there; keep only the _seed directory and nothing else untracked). Do NOT use `git stash` (the stash is shared between worktrees; save diffs to files and use `git apply` instead). Final message: a two-line summary of the two changes.""" + ("\n\nOther people have already produced the following changes for this property; yours must use DIFFERENT mechanisms and different code sites from all of them:\n" + "\n".join("  - " + x for x in prev) if (prev and ROUND != "ab") else ""))
